@@ -460,6 +460,23 @@ func genEntryFocusDec(g *Gen, w *bufio.Writer, t *fTables, bases [][]byte) {
 			}
 		}
 	}
+	// the receiving Message already carries the outer security header (types 1..4): every input of up to two octets behind both
+	// discriminators, and the small messages
+	for sht := 0; sht <= 4; sht++ {
+		fmt.Fprintf(w, "decsh %d -\n", sht)
+		for _, e := range []int{0x7e, 0x2e, 0x00} {
+			fmt.Fprintf(w, "decsh %d %02x\n", sht, e)
+			for x := 0; x < 256; x += 5 {
+				fmt.Fprintf(w, "decsh %d %02x%02x\n", sht, e, x)
+				fmt.Fprintf(w, "decsh %d %02x%02x%02x\n", sht, e, x, g.Intn(256))
+			}
+		}
+		for k, b := range bases {
+			if k%3 == sht%3 {
+				fmt.Fprintf(w, "decsh %d %s\n", sht, hexs(b))
+			}
+		}
+	}
 	// a message behind a length prefix (NAS over TCP framing, TS 24.502 9.4) or behind another message's header: the entry points
 	// take exactly the octets they are given
 	for _, b := range bases {
